@@ -21,7 +21,7 @@ RULE = ("two case kinds. params: a parameter class of draw_params.py (MPDrawPara
         "trajectory / with set-based prediction incl. interval time steps and holes, phantom, environment; shapes rectangle, "
         "circle, polygon, group; exact and uncertain positions; signal series) + 0..2 planning problems, drawn with a parameter "
         "setting: window begin chosen around every initial/final time step (before, inside, after the horizons), end = begin, "
-        "begin+1, begin+3, another horizon point, begin+40 or begin-1; in ~45% of the cases 1..3 earlier frames ran on the same renderer: render(keep_static_artists True/False) frames, create_video-style frames (remove_dynamic, clear, draws, render_dynamic), draws that raise half-way followed by clear(), whole scenario or obstacles only, fresh parameter objects or one shared object whose window is re-set, the scenario changed in place between frames (obstacle removed / added, prediction dropped / replaced, trajectory re-assigned, initial state re-set), often re-drawing the same step; the selected frame is drawn through one of six public entry points (scenario.draw, draw_scenario, renderer's own parameters with draw_params=None, network + draw_list, per object with its sub-group, list of parameter objects), on a renderer constructed with / without draw_params, plot_limits (flat, nested, 'auto'), focus_obstacle, figsize, rendered with or without a file name, after read-only queries; lattice cases also set style values (colours, widths, z-orders, opacities; int where float is usual); value classes: obstacle id 0, off-centre / rotated obstacle shapes, shuffled occupancy sets, 3-D lanelet vertices, signs / lights without position, inactive cycles, obstacle history; mode 'plain' = shapes on, icons/signals/trajectories/"
+        "begin+1, begin+3, another horizon point, begin+40 or begin-1; in ~45% of the cases 1..3 earlier frames ran on the same renderer: render(keep_static_artists True/False) frames, create_video-style frames (remove_dynamic, clear, draws, render_dynamic), draws that raise half-way followed by clear(), after EVERY shown frame (earlier ones too) the obstacle patch collections that are on the axes (ax.collections) are observed and judged against the occupancies of that frame's own window, whole scenario or obstacles only, fresh parameter objects or one shared object whose window is re-set, the scenario changed in place between frames (obstacle removed / added, prediction dropped / replaced, trajectory re-assigned, initial state re-set), often re-drawing the same step; the selected frame is drawn through one of six public entry points (scenario.draw, draw_scenario, renderer's own parameters with draw_params=None, network + draw_list, per object with its sub-group, list of parameter objects), on a renderer constructed with / without draw_params, plot_limits (flat, nested, 'auto'), focus_obstacle, figsize, rendered with or without a file name, after read-only queries; lattice cases also set style values (colours, widths, z-orders, opacities; int where float is usual); value classes: obstacle id 0, off-centre / rotated obstacle shapes, shuffled occupancy sets, 3-D lanelet vertices, signs / lights without position, inactive cycles, obstacle history; mode 'plain' = shapes on, icons/signals/trajectories/"
         "extra occupancies/history off (other flags random), mode 'lattice' = every boolean field of the 87 nested groups "
         "flipped with probability 0/0.1/0.5/0.9, history steps, id filters (none, empty, subset, superset, unknown ids) for "
         "lanelets, planning problems, traffic signs. Positions, orientations and velocities of obstacle states are exact "
@@ -56,7 +56,9 @@ REQUIRED_BUCKETS = ["params:ctor-window", "params:top-level", "params:nested", "
                     "frames:scenario-mutated", "frames:mutated-same-step", "frames:same-params-object", "style:video", "style:render", "render:filename",
                     "queries-before-draw", "renderer:plot-limits", "renderer:focus-obstacle", "renderer:ctor-params",
                     "entry:scenario.draw", "entry:draw_scenario", "entry:renderer-params", "entry:network+draw_list",
-                    "entry:per-object", "entry:list-of-params", "params:style-values", "outside-quantifier", "anchor:center", "reading:mid", "border-vertices", "light-labels", "set-based-later-steps", "hidden-by-guard", "icon", "history"]
+                    "entry:per-object", "entry:list-of-params", "params:style-values", "outside-quantifier", "anchor:center", "reading:mid", "border-vertices", "light-labels", "set-based-later-steps", "hidden-by-guard", "icon", "history",
+                    "axes:video-frames>=2", "axes:video-frames>=2/plain", "axes:render-then-video", "axes:earlier-frame-judged",
+                    "axes:render-frame"]
 WORKERS = {"quick": 1, "thorough": 8}
 EXTRA_MODULES = ["CRProps.T19"]      # translator tie: Gen.SrcC19 (regenerated from the repo every run by harness/translate/src_c19.py) = hand model
 
@@ -938,6 +940,117 @@ def prescribed_shapes(ctx, obstacles, tb, te):
     return required, allowed
 
 
+class AxesWatch:
+    """What the FIGURE displays: the obstacle patch collections that are on the axes (read from `ax.collections`, not from
+    the renderer's bookkeeping), every path named by the canonical form of the patch it was made from.  `note` is called
+    before every show with the renderer's buffers: it only builds the dictionary 'path vertices -> canonical patch' and
+    remembers which collections are static map collections (lanelet centre lines / direction arrows are PatchCollections too)."""
+
+    def __init__(self):
+        self.known, self.other, self.static, self.obst = {}, set(), [], []
+
+    @staticmethod
+    def key(x):
+        return json.dumps(canon(x.get_transform().transform_path(x.get_path()).vertices))
+
+    def obstacles(self, rnd):
+        """called when the buffers hold obstacle patches only (before the planning problems add their markers)"""
+        have = {id(x) for x in self.obst}
+        for x in rnd.obstacle_patches:
+            if id(x) not in have:
+                self.obst.append(x)
+                self.known.setdefault(self.key(x), patch_canon(x))
+
+    def note(self, rnd, patches=True):
+        """called before every show: the remaining buffered patches are markers of planning problems (initial states, goal
+        regions), not obstacle shapes; static map collections are remembered by identity"""
+        have = {id(x) for x in self.obst}
+        for x in rnd.obstacle_patches if patches else []:
+            if id(x) not in have:
+                self.other.add(self.key(x))
+        have = {id(c) for c in self.static}
+        self.static.extend(c for c in rnd.static_collections if id(c) not in have)
+
+    def shown(self, ax):
+        import matplotlib.collections as mcoll
+        static, seen, out = {id(c) for c in self.static}, set(), []
+        for col in ax.collections:
+            if not isinstance(col, mcoll.PatchCollection) or id(col) in static or id(col) in seen:
+                continue
+            seen.add(id(col))  # the same artist added twice is displayed once
+            shapes = []
+            for pa in col.get_paths():
+                key = json.dumps(canon(pa.vertices))
+                if key in self.known or key not in self.other:
+                    shapes.append(self.known.get(key, ["path", "unknown", canon(pa.vertices)]))
+            out.append(shapes)
+        return out
+
+
+def jsorted(xs):
+    return sorted(xs, key=json.dumps)
+
+
+def axes_ops(tl):
+    """The timeline as the renderer operations the harness performs on the real renderer, for CR.Draw.runAxes:
+    -> (ops, for every show the index of the frame that makes it)."""
+    ops, show_frame, video_started = [], [], False
+    for i, (style, q, obs, nw, keep, tree, desc) in enumerate(tl):
+        d = {"op": "draw", "tree": tree, "obstacles": desc, "draw_network": nw}
+        if style == "failed":
+            ops.append({"op": "clear", "keep": False})
+            continue
+        if style == "video":
+            if not video_started:  # create_video: ax.clear(); init_frame = draw_list(...), render_static()
+                ops += [{"op": "cla"}, {**d, "draw_network": True}, {"op": "render_static"}]
+                video_started = True
+            ops += [{"op": "remove_dynamic"}, {"op": "clear", "keep": False}, d, {"op": "render_dynamic"}]
+        else:
+            ops += [d, {"op": "render", "keep": keep}]
+        show_frame.append(i)
+    return ops, show_frame
+
+
+def check_axes(ctx, case, watch, ax, i, tl, show_frame, maxes, pres, window):
+    """After the show of frame i: the obstacle shapes that are ON THE AXES now (a) against the model of the axes
+    (CR.Draw.runAxes: one collection per show still displayed), (b) oracle: against the occupancies the obstacles report
+    for THIS frame's window — the property sentence judged on the figure, not on the buffers."""
+    shown = watch.shown(ax)
+    k = show_frame.index(i)
+    if maxes is not None:
+        exp_cols, got_cols = [], []
+        for c in maxes[k]:
+            fi = show_frame[c["show"]]
+            exp = expected_of(c["patches"], tl[fi][2], tl[fi][1])[0]
+            exp_cols.append({"n": len(exp), "known": jsorted(x for x in exp if x != ANY)})
+        exp_cols = jsorted(exp_cols)
+        rest = list(exp_cols)
+        for g in shown:  # a displayed collection matches an expected one if it has its size and contains its known patches
+            hit = next((e for e in rest if e["n"] == len(g) and not multiset_sub(g, e["known"])[1]), None)
+            if hit is not None:
+                rest.remove(hit)
+                got_cols.append(hit)
+            else:
+                got_cols.append({"n": len(g), "known": jsorted(g)})
+        ctx.compare(case, jsorted(got_cols), exp_cols,
+                    f"obstacle patch collections on the axes after the show of frame {i} ({tl[i][0]}) vs CR.Draw.runAxes")
+    if pres[i] is None:
+        return
+    required, allowed = pres[i]
+    flat_shown = [x for g in shown for x in g]
+    extra, missing = multiset_sub(flat_shown, required)
+    if missing:
+        ctx.fail("C19/axes/occupancy-not-shown",
+                 f"frame {i} ({tl[i][0]}), window [{window[0]}, {window[1]}): {len(missing)} occupancy shape(s) the obstacles "
+                 f"report are not on the axes after the frame was rendered, first {missing[0][0]}", case)
+    extra2, _ = multiset_sub(extra, allowed)
+    if extra2:
+        ctx.fail("C19/axes/shape-without-occupancy",
+                 f"frame {i} ({tl[i][0]}), window [{window[0]}, {window[1]}): the axes show {len(flat_shown)} obstacle shape(s) in "
+                 f"{len(shown)} collection(s), {len(extra2)} of them are no occupancy of any obstacle in this frame's window "
+                 f"(left over from an earlier frame or drawn twice), first {extra2[0][0]}", case)
+
+
 ENTRIES_FULL = ["scenario.draw", "draw_scenario", "renderer-params", "network+draw_list", "per-object", "list-of-params"]
 ENTRIES_OBST = ["draw_list", "per-object", "list-of-params", "renderer-params"]
 
@@ -1190,13 +1303,30 @@ def run_draw_case(ctx, case, model=True):
     if p.lanelet_network.lanelet.draw_border_vertices:
         ctx.tag("border-vertices")
     prescribed = prescribed_shapes(ctx, obstacles, tb, te) if mode == "plain" and te >= tb and not case.get("outside") else None
+    frame_dts = [fr_["dt"] for fr_ in (case.get("frames") or ([{"dt": 1}] if case.get("reuse") else []))]
+    # the property sentence for every EARLIER frame that is shown, on the twin obstacles as they are at that frame
+    pres = [prescribed_shapes(ctx, tl[i_][2], tb + dt_, te + dt_)
+            if prescribed is not None and tl[i_][0] != "failed" else None for i_, dt_ in enumerate(frame_dts)] + [prescribed]
+    a_ops, show_frame = axes_ops(tl)
+    n_video = sum(1 for i_ in show_frame if tl[i_][0] == "video")
+    if n_video >= 2:
+        ctx.tag("axes:video-frames>=2")
+        if prescribed is not None:
+            ctx.tag("axes:video-frames>=2/plain")
+        if any(tl[i_][0] == "render" for i_ in show_frame):
+            ctx.tag("axes:render-then-video")
+    if len(show_frame) >= 2 and prescribed is not None:
+        ctx.tag("axes:earlier-frame-judged")
+    if any(tl[i_][0] == "render" for i_ in show_frame):
+        ctx.tag("axes:render-frame")
     tl_ = p.lanelet_network.traffic_light
     light_labels = bool(main_network and style == "render" and tl_.draw_traffic_lights
                         and not p.lanelet_network.traffic_sign.draw_traffic_signs and net.traffic_lights)
     if light_labels:
         ctx.tag("light-labels")
-    res, mframes = None, None
+    res, mframes, maxes = None, None, None
     if model and not case.get("outside"):
+        maxes = ctx.driver.ask("C19", "axes", {"ops": a_ops})
         if prev or style == "video":
             mframes = model_ops(ctx, tl)
             res = {"ok": mframes[-1]["patches"]}
@@ -1232,8 +1362,12 @@ def run_draw_case(ctx, case, model=True):
         q.time_begin, q.time_end = tb + fr["dt"], te + fr["dt"]
         return q
 
+    watch = AxesWatch()
+
     def video_init(q):
+        rnd.ax.clear()  # create_video starts with self.ax.clear()
         rnd.draw_list([sc, pps], q)
+        watch.note(rnd, patches=False)
         rnd.render_static()
 
     for i, fr in enumerate(frames_spec):
@@ -1258,6 +1392,7 @@ def run_draw_case(ctx, case, model=True):
                 rnd.remove_dynamic()
                 rnd.clear()
             got, glabs = draw_frame(rnd, sc, pps, q, fr["network"], fr.get("entry", "scenario.draw"))
+            watch.obstacles(rnd)
             if fr["network"]:
                 pps.draw(rnd, q)
             if mframes is not None:
@@ -1265,10 +1400,12 @@ def run_draw_case(ctx, case, model=True):
                 got = [ANY if j < len(exp) and exp[j] == ANY else x for j, x in enumerate(got)]
                 ctx.compare(case, {"patches": got, "labels": glabs}, {"patches": exp, "labels": labs},
                             f"buffers of earlier frame {i} ({st_}) before it is shown vs CR.Draw.runOps")
+            watch.note(rnd)
             if st_ == "video":
                 rnd.render_dynamic()
             else:
                 rnd.render(keep_static_artists=fr["keep"])
+            check_axes(ctx, case, watch, ax, i, tl, show_frame, maxes, pres, (tb + fr["dt"], te + fr["dt"]))
         except Exception as e:  # noqa
             return fail_exc(ctx, "draw_render_previous_frame", e, case)
     try:
@@ -1285,6 +1422,7 @@ def run_draw_case(ctx, case, model=True):
             rnd.remove_dynamic()
             rnd.clear()
         patches, labels_obs = draw_frame(rnd, sc, pps, preal, main_network, entry)
+        watch.obstacles(rnd)
     except Exception as e:  # noqa
         if case.get("outside"):
             # an input outside the property's quantifier (named in the case): no verdict, but the model of the partial
@@ -1310,6 +1448,7 @@ def run_draw_case(ctx, case, model=True):
     except Exception as e:  # noqa
         return fail_exc(ctx, "draw_planning_problem_set", e, case)
     annos = [canon(list(a.xy)) for a in rnd.static_artists[n_static:] if isinstance(a, mtext.Annotation)]
+    watch.note(rnd)
     try:
         if style == "video":
             rnd.render_dynamic()
@@ -1321,6 +1460,11 @@ def run_draw_case(ctx, case, model=True):
     except Exception as e:  # noqa
         return fail_exc(ctx, "render", e, case)
     texts_obs = light_texts(ax)
+    try:
+        if not (te < tb and mode == "plain"):
+            check_axes(ctx, case, watch, ax, len(tl) - 1, tl, show_frame, maxes if model else None, pres, (tb, te))
+    except Exception as e:  # noqa
+        return fail_exc(ctx, "observe_axes", e, case)
     if case.get("raster") and style == "render":
         try:
             ax.figure.canvas.draw()
